@@ -79,6 +79,9 @@ def evaluate(name, props):
     rc, out = sh(f"git -C /repo apply {os.path.join(d, 'patch.diff')}")
     if rc != 0:
         print("patch does not apply to /repo:", out); return 1
+    # the evidence files must describe runs on the UNCHANGED tree: keep them aside while the patched tree is being checked
+    ev = os.path.join(ROOT, "evidence")
+    saved = {f: open(os.path.join(ev, f), "rb").read() for f in os.listdir(ev) if f.endswith(".json")}
     try:
         for p in props:
             rc, out = sh(f"python3 tools/check.py {p} --tier quick", cwd=ROOT)
@@ -87,6 +90,10 @@ def evaluate(name, props):
             print(p, "rc=%d" % rc, lines[:3])
     finally:
         sh("git -C /repo checkout -- .")
+        for f, b in saved.items():
+            open(os.path.join(ev, f), "wb").write(b)
+        # regenerate what the translators derived from the patched sources
+        sh(f"{sys.executable} tools/gen_consts.py; {sys.executable} tools/extract_skeleton.py", cwd=ROOT)
     json.dump(meta, open(os.path.join(d, "meta.json"), "w"), indent=1)
     return 0
 
